@@ -297,6 +297,7 @@ extern "C" int LLVMFuzzerTestOneInput(const uint8_t *data, size_t size) {
       size_t before = c.cbs.size();
       CHECK(w.udp_send(f.bytes.data(), f.bytes.size()), "harness/setup", "sendto: %s", strerror(errno));
       w.turn();
+      if (f.ref.verdict == V_MUST) w.settle([&] { return c.cbs.size() > before; });
       size_t rfrom = responses.size();
       std::vector<uint8_t> r; while (w.udp_recv(&r)) { TR("  response [%zu] %s", r.size(), hexs(r.data(), r.size(), 60).c_str()); responses.push_back(r); }
       annotate(c.cbs, before, responses, rfrom);
@@ -337,10 +338,11 @@ extern "C" int LLVMFuzzerTestOneInput(const uint8_t *data, size_t size) {
       w.turn(); w.turn(); w.tcp_read();
       // no callback before its message is complete, none withheld once it is
       size_t done_any = 0, done_must = 0; for (auto &f : ms) if (f.end_off <= sent) { if (f.ref.verdict != V_MUSTNOT) done_any++; if (f.ref.verdict == V_MUST) done_must++; }
+      if (c.cbs.size() < done_must && !w.tcp_eof) w.settle([&] { return c.cbs.size() >= done_must || w.tcp_eof; });
       if (c.cbs.size() > done_any && timing_ok && sent <= killed_at) { timing_ok = false; timing_msg = "callback #" + std::to_string(c.cbs.size() - 1) + " ran after " + std::to_string(sent) + " stream bytes, before a message that could cause it was complete"; }
       if (c.cbs.size() < done_must && timing_ok) { timing_ok = false; timing_msg = "after " + std::to_string(sent) + " stream bytes " + std::to_string(done_must) + " well-formed queries are complete but only " + std::to_string(c.cbs.size()) + " callback(s) ran"; }
     }
-    if (rare(s, 1, 4)) { shutdown(w.cli_tcp, SHUT_WR); TR("  client half-closes"); }
+    if (rare(s, 1, 16)) { shutdown(w.cli_tcp, SHUT_WR); TR("  client half-closes"); }      // rare: each one leaves a TIME_WAIT socket behind for 60 s
     w.tcp_pump();
     std::vector<uint8_t> r; while (w.tcp_pop(&r)) { TR("  response [%zu] %s", r.size(), hexs(r.data(), r.size(), 60).c_str()); responses.push_back(r); }
     if (w.tcp_eof) conn_killed = true;
